@@ -487,27 +487,46 @@ def rule_scope_flags(rep: Report, repo: Repo):
     rep.check(norm(d.get("use_linear_operator", ast.Constant(None))) == "use_linear_operator", R,
               f"{MOD}::block_diagonalize scope passes the linear-operator mask", "", loc(scopes[0]))
     # diag / offdiag installed together in both mask branches
-    installs = [n for n in own_nodes(f) if isinstance(n, ast.Assign) and isinstance(n.targets[0], ast.Subscript)
-                and norm(n.targets[0].value) == "scope"]
-    keys = [(norm(n.targets[0].slice), norm(n.value), id(n._parent), [i for i, s in enumerate(getattr(n._parent, 'body', [])) if s is n] or [-1]) for n in installs]
-    pairs = {}
-    for n in installs:
-        blk = id(n._parent), any(n is s for s in getattr(n._parent, "body", []))
-        pairs.setdefault(blk, set()).add((norm(n.targets[0].slice), norm(n.value)))
-    ok = len(pairs) >= 1 and all(v == {("'diag'", "diag"), ("'offdiag'", "offdiag")} for v in pairs.values())
+    installs, pairs = [], {}
+    for n in own_nodes(f):
+        if not isinstance(n, ast.Assign):
+            continue
+        tg = n.targets[0]
+        items = []
+        if isinstance(tg, ast.Subscript) and norm(tg.value) == "scope":
+            items = [(tg, n.value)]
+        elif isinstance(tg, ast.Tuple) and all(isinstance(t_, ast.Subscript) and norm(t_.value) == "scope" for t_ in tg.elts):
+            if not (isinstance(n.value, ast.Tuple) and len(n.value.elts) == len(tg.elts)):
+                raise AnalysisError(R, f"block_diagonalize: `{norm(n)[:70]}` installs scope entries from a value that is not followed")
+            items = list(zip(tg.elts, n.value.elts))
+        if items:
+            installs.append(n)
+            blk = id(n._parent), any(n is s_ for s_ in getattr(n._parent, "body", []))
+            for t_, v_ in items:
+                pairs.setdefault(blk, set()).add((norm(t_.slice), norm(v_)))
+    if not installs:
+        raise AnalysisError(R, "block_diagonalize: no installation of diag / offdiag into the scope found")
+    ok = all(v == {("'diag'", "diag"), ("'offdiag'", "offdiag")} for v in pairs.values())
     rep.check(ok, R, f"{MOD}::block_diagonalize diag and offdiag are installed into the scope together",
-              str(sorted(map(sorted, pairs.values()))), loc(installs[0] if installs else scopes[0]))
-    # algorithm selection and the call
-    alg = [n for n in own_nodes(f) if isinstance(n, ast.Assign) and norm(n.targets[0]) == "algorithm"]
-    rep.check(len(alg) == 1 and norm(alg[0].value) in ("main if hermitian else nonhermitian", "nonhermitian if not hermitian else main"), R,
-              f"{MOD}::block_diagonalize algorithm = main if hermitian else nonhermitian", norm(alg[0].value) if alg else "", loc(f))
+              str(sorted(map(sorted, pairs.values()))), loc(installs[0]))
+    # algorithm selection and the call: decided on the bound, resolved arguments of the one series_computation call
+    from .resolve import env_at as _ea1, resolved as _rs1
+    from .sem import bind_args as _bind1, canon as _canon1
     calls = [n for n in own_nodes(f) if isinstance(n, ast.Call) and call_name(n) == "series_computation"]
-    ok = len(calls) == 1
-    if ok:
-        c = calls[0]
-        kw = {k.arg: norm(k.value) for k in c.keywords}
-        ok = norm(c.args[0]) == "{'H': H}" and kw.get("algorithm") == "algorithm" and kw.get("scope") == "scope" and kw.get("operator") == "operator"
-    rep.check(ok, R, f"{MOD}::block_diagonalize series_computation({{'H': H}}, algorithm, scope, operator)", "", loc(calls[0] if calls else f))
+    if len(calls) != 1:
+        raise AnalysisError(R, f"block_diagonalize: {len(calls)} calls of series_computation")
+    c = calls[0]
+    scdef = repo.find("algorithm_parsing::series_computation", R)
+    b1 = _bind1(scdef, c)
+    if b1 is None:
+        raise AnalysisError(R, "block_diagonalize: the series_computation call cannot be bound")
+    env_c = {k_: v_ for k_, v_ in _ea1(c, f).items() if k_ not in ("scope", "H", "operator")}
+    alg_t = norm(_canon1(_rs1(b1["algorithm"], env_c)))
+    rep.check(alg_t in ("main if hermitian else nonhermitian", "nonhermitian if not hermitian else main"), R,
+              f"{MOD}::block_diagonalize algorithm = main if hermitian else nonhermitian", alg_t, loc(c))
+    ok = norm(b1["series"]) == "{'H': H}" and norm(b1["scope"]) == "scope" and norm(b1["operator"]) == "operator"
+    rep.check(ok, R, f"{MOD}::block_diagonalize series_computation({{'H': H}}, algorithm, scope, operator)",
+              str({k_: norm(v_)[:40] for k_, v_ in b1.items()}), loc(c))
     rets = [n for n in own_nodes(f) if isinstance(n, ast.Return)]
     from .resolve import env_at as _ea0
     sc_asg = [n for n in own_nodes(f) if isinstance(n, ast.Assign) and isinstance(n.value, ast.Call) and call_name(n.value) == "series_computation"]
